@@ -6,13 +6,84 @@ def run(ctx):
     ctx.clause = ("the harmless / harmful masks partition the category space, every category a categoriser assigns is "
                   "in its mask, the filter consults only the allowed mask, and the masks are switched off exactly "
                   "under !--harmless / --no-harmful")
-    ctx.rules = ["R-CATPART", "R-OPTWIRE", "R-PEELTOTAL"]
+    ctx.rules = ["R-CATPART", "R-OPTWIRE", "R-PEELTOTAL", "R-REDUNDUP"]
     P = ctx.program(cr.UNITS)
     cr.check_catpart(ctx, P)
     cr.check_optwire(ctx, P)
     check_peeltotal(ctx, P)
+    check_redundup(ctx)
     ctx.assume("whether a particular change is classified harmless is the categorisers' runtime behaviour")
 
+
+
+def check_redundup(ctx, rule="R-REDUNDUP"):
+    """R-REDUNDUP: a harmless change is carried by a leaf of the diff tree; what makes the *interfaces* above it disappear
+    from the default report is the upward rule of the redundancy pass (redundancy_marking_visitor::visit_end): a node that
+    has no local change of its own and whose changed children are all not-to-be-reported is not reported either.  The
+    function is interpreted in that world - `d` carries no category yet and no local change to report, every child that has
+    changes answers false to to_be_reported(), whatever the reason (harmless category, suppression, redundancy): whenever
+    the walk over the children met a changed child, `d` ends up in REDUNDANT_CATEGORY on every path.  A rule that asks the
+    children for a *particular* reason leaves the parents of merely harmless changes category-less: they are printed, and
+    abidiff exits 4 for a change the manual documents as filtered."""
+    from engine.facts import walk, call_args, member_call_object, expr_str
+    from engine.cfg import strip_casts
+    from engine.compdb import AnalysisBroken
+    from rules.world import World
+    P = ctx.program(["src/abg-comparison.cc"])
+    fs = [f for f in P.all_funcs() if f.n == "visit_end" and "redundancy_marking_visitor" in f.q and not f.dep and f.cfg() is not None and
+          any(x["k"] == "CXXMemberCallExpr" and (f.decl(x) or {}).get("n") == "add_to_category" for x in f.nodes())]
+    if len(fs) != 1:
+        raise AnalysisBroken("anchor vanished: redundancy_marking_visitor::visit_end(diff*)")
+    f = fs[0]
+    ctx.analysed(f)
+    d = f.r["params"][0]
+
+    def on_d(e):
+        o = strip_casts(member_call_object(e))
+        return o is not None and o["k"] == "DeclRefExpr" and o.get("d") == d
+
+    def atom(e):
+        k = e["k"]
+        if k == "MemberExpr" and (f.decl(e) or {}).get("n") == "skip_children_nodes_":
+            return [False]
+        if k == "BinaryOperator" and e.get("op") == "&" and any(
+                y["k"] == "CXXMemberCallExpr" and (f.decl(y) or {}).get("n") == "get_category" and on_d(y) for y in walk(e["c"][0])):
+            return [0]
+        if k == "CXXMemberCallExpr":
+            nm = (f.decl(e) or {}).get("n")
+            if on_d(e):
+                if nm == "has_local_changes_to_be_reported":
+                    return [False]
+                if nm == "has_changes":
+                    return [True]
+            else:
+                if nm == "has_changes":
+                    return [True]
+                if nm == "to_be_reported":
+                    return [False]
+        return None
+
+    def effect(e, env):
+        if e["k"] == "CXXMemberCallExpr":
+            nm = (f.decl(e) or {}).get("n")
+            if nm == "has_changes" and not on_d(e):
+                env[-1] = frozenset([True])
+            if nm == "add_to_category" and on_d(e) and any(
+                    y["k"] == "DeclRefExpr" and (f.decl(y) or {}).get("n") == "REDUNDANT_CATEGORY" for a in call_args(e) for y in walk(a)):
+                env[-2] = frozenset([True])
+    track = {x.get("d") for x in f.nodes() if x["k"] == "VarDecl" and (f.type(x) or {}).get("arith")}
+    W = World(f, atom, effect)
+    W.run_env(track)
+    ends = W.exit_envs + [env for _, env in W.ret_envs]
+    met = [env for env in ends if env.get(-1) == frozenset([True])]
+    if not met:
+        raise AnalysisBroken("anchor vanished: visit_end no longer walks the children of the node (has_changes())")
+    bad = [env for env in met if env.get(-2) != frozenset([True])]
+    ctx.ob(rule, "a node without local change whose changed children are all filtered out is marked redundant", not bad, f.loc(),
+           "%d way(s) out of visit_end after a changed, not-to-be-reported child was met: REDUNDANT_CATEGORY added on all" % len(met) if not bad else
+           "in the world where every changed child answers false to to_be_reported(), visit_end can end without "
+           "add_to_category(REDUNDANT_CATEGORY) (%d of %d ways out): the upward rule asks the children for a particular reason, and "
+           "the parents of merely harmless changes stay category-less - printed by default, exit status 4" % (len(bad), len(met)))
 
 
 def check_peeltotal(ctx, P):
